@@ -318,7 +318,7 @@ __strf_tot_corr(struct dt_dtdur_s dur)
 	if (dur.durtyp == DT_DURS && dur.tai) {
 		/* the sign is printed separately, so the correction must
 		 * lengthen the magnitude for negative durations too */
-		return dur.soft < 0 ? -dur.corr : dur.corr;
+		return dur.corr < 0 ? -dur.corr : dur.corr;
 	}
 	/* otherwise no corrections */
 	return 0;
@@ -449,10 +449,14 @@ static struct precalc_s {
 		res.neg = dur.neg || us < 0;
 		if (UNLIKELY(dur.tai) && dur.durtyp == DT_DURS) {
 			/* S is net of leap seconds and can be nought
-			 * although the operands are in reverse order */
-			res.neg |= dur.soft < 0;
+			 * although the operands are in reverse order, or
+			 * point the other way when one of them is an
+			 * inserted second, go by the real seconds */
+			res.neg = dur.soft + dur.corr < 0;
+			us = !res.neg ? us : -us;
+		} else {
+			us = us >= 0 ? us : -us;
 		}
-		us = us >= 0 ? us : -us;
 	}
 
 	if (f.has_week) {
